@@ -1,5 +1,6 @@
 """C10 - JSON parser accepts every valid document and reproduces it.
 
+I  spec/json/JsonImpl.tla      json.Parser.Next over token classes (state stack, needComma, every error branch); TLC: I => P for all sequences
 P  spec/json/JsonStream.tla    push-down monitor over units for any input + acceptance/re-join rule for valid documents
 G  spec/json/JsonGrammar.tla   RFC 8259 as grammar-as-behaviour (document skeletons); mode "all": every token-class sequence
 T  spec/json/JsonTrace.tla     judges traces of harness/suites/jsonp
@@ -78,6 +79,9 @@ def judge(ck, fails, origin):
 
 def run(ck):
     thorough = ck.tier == "thorough"
+    ck.tlc("json", "JsonImpl", "JsonImpl_thorough.cfg" if thorough else "JsonImpl_quick.cfg", timeout=3000, heap="12g", workers=min(12, ck.cores),
+           label="I=>P: model of json.Parser.Next over every token-class sequence refines JsonStream")
+    ck.tlc("json", "JsonImpl", "JsonImpl_defect.cfg", label="model of the pre-fix parser ('{[' delivered as a unit) is rejected by P", expect_violation="Refines")
     for mode, cfg, label in (("grammar", "Gen_grammar_thorough.cfg" if thorough else "Gen_grammar_quick.cfg", "RFC 8259 derivations"),
                              ("all", "Gen_all_thorough.cfg" if thorough else "Gen_all_quick.cfg", "every token-class sequence")):
         cases = ck.path("cases-%s.ndjson" % mode)
